@@ -56,7 +56,7 @@ class C08(CacheProp):
     def nontrivial(self, case, il):
         return any(l.startswith("blocked") for l in il)
 
-    stress_kinds = ("race", "hang", "panic", "dupexit", "stale", "wrongkey", "lost", "torn")
+    stress_kinds = ("race", "hang", "panic", "dupexit", "stale", "wrongkey", "lost", "torn", "sweeprace")
     stress_race = True
 
 
